@@ -1,13 +1,52 @@
 import ObiVerif.Model.Fp
 import ObiVerif.Gen.FpGen
+import ObiVerif.Lemmas.FpShift
 set_option Elab.async false
 namespace ObiVerif.Props.C20Gen
 open ObiVerif
 
+theorem subw_of_le {a b : Nat} (h : b ≤ a) (ha : a < Fp.W) : Gen.Fp.subw a b = a - b := by
+  unfold Gen.Fp.subw; simp only [Fp.W] at *; omega
+
+theorem shl64_one {n : Nat} (h : n < 64) : Fp.shl64 1 n = 2 ^ n := by
+  unfold Fp.shl64
+  have : 2 ^ n < 2 ^ 64 := Nat.pow_lt_pow_right (by decide) h
+  rw [Nat.one_mul, Nat.mod_eq_of_lt (by simpa [Fp.W] using this)]
+
+theorem subw_pow_one {n : Nat} (h : n < 64) : Gen.Fp.subw (2 ^ n) 1 = 2 ^ n - 1 := by
+  have : 2 ^ n < 2 ^ 64 := Nat.pow_lt_pow_right (by decide) h
+  exact subw_of_le (Nat.one_le_two_pow) (by simpa [Fp.W] using this)
+
 @[simp] theorem gen_U64_leftShift64 : ∀ u n c, Gen.Fp.U64.leftShift64 u n c = Fp.leftShift64 u.w0 n c := by
-  intro u n c; first | rfl | simp [Gen.Fp.U64.leftShift64, Fp.leftShift64]
+  intro u n c
+  unfold Gen.Fp.U64.leftShift64 Fp.leftShift64
+  by_cases h0 : n = 0
+  · simp [h0]
+  by_cases h1 : n < 64
+  · have e3 : Gen.Fp.subw 64 n = 64 - n := subw_of_le (by omega) (by decide)
+    simp [h0, h1, shl64_one h1, subw_pow_one h1, e3]
+  by_cases h2 : n = 64
+  · simp [h2]
+  by_cases h3 : n < 128
+  · have e : Gen.Fp.subw n 64 = n - 64 := subw_of_le (by omega) (by simp only [Fp.W]; omega)
+    simp [h0, h1, h2, h3, e]
+  · simp [h0, h1, h2, h3]
+
 @[simp] theorem gen_U64_rightShift64 : ∀ u n c, Gen.Fp.U64.rightShift64 u n c = Fp.rightShift64 u.w0 n c := by
-  intro u n c; first | rfl | simp [Gen.Fp.U64.rightShift64, Fp.rightShift64]
+  intro u n c
+  unfold Gen.Fp.U64.rightShift64 Fp.rightShift64
+  by_cases h0 : n = 0
+  · simp [h0]
+  by_cases h1 : n < 64
+  · have e3 : Gen.Fp.subw 64 n = 64 - n := subw_of_le (by omega) (by decide)
+    have h1' : 64 - n < 64 := by omega
+    simp [h0, h1, e3, shl64_one h1', subw_pow_one h1']
+  by_cases h2 : n = 64
+  · simp [h2]
+  by_cases h3 : n < 128
+  · have e : Gen.Fp.subw n 64 = n - 64 := subw_of_le (by omega) (by simp only [Fp.W]; omega)
+    simp [h0, h1, h2, h3, e]
+  · simp [h0, h1, h2, h3]
 
 @[simp] theorem gen_U64_zero : ∀ u, Gen.Fp.U64.zero u = Fp.U64.zero u := by
   intro u; first | rfl | simp [Gen.Fp.U64.zero, Fp.U64.zero]
@@ -163,25 +202,150 @@ open ObiVerif
   intro u x; first | rfl | simp [Gen.Fp.U128.mul64, Fp.U128.mul64]
 
 @[simp] theorem gen_U128_quoRem64 : ∀ u x, Gen.Fp.U128.quoRem64 u x = Fp.U128.quoRem64 u x := by
-  intro u x; first | rfl | simp [Gen.Fp.U128.quoRem64, Fp.U128.quoRem64]
+  intro u x
+  unfold Gen.Fp.U128.quoRem64 Fp.U128.quoRem64
+  by_cases h : u.w1 < x
+  · simp only [h, decide_true, if_true]
+    cases Fp.bitsDiv64 u.w1 u.w0 x with
+    | error e => rfl
+    | ok a => cases a; rfl
+  · simp only [h, decide_false, if_false, Bool.false_eq_true]
+    cases Fp.bitsDiv64 0 u.w1 x with
+    | error e => rfl
+    | ok a =>
+      obtain ⟨q1, r1⟩ := a
+      simp only [bind, Except.bind]
+      cases Fp.bitsDiv64 r1 u.w0 x with
+      | error e => rfl
+      | ok b => cases b; rfl
 
 @[simp] theorem gen_U128_div64 : ∀ u x, Gen.Fp.U128.div64 u x = Fp.U128.div64 u x := by
-  intro u x; first | rfl | simp [Gen.Fp.U128.div64, Fp.U128.div64]
+  intro u x
+  unfold Gen.Fp.U128.div64 Fp.U128.div64
+  rw [gen_U128_quoRem64]
+  cases Fp.U128.quoRem64 u x with
+  | error e => rfl
+  | ok a => cases a; rfl
 
 @[simp] theorem gen_U128_mod64 : ∀ u x, Gen.Fp.U128.mod64 u x = Fp.U128.mod64 u x := by
-  intro u x; first | rfl | simp [Gen.Fp.U128.mod64, Fp.U128.mod64]
+  intro u x
+  unfold Gen.Fp.U128.mod64 Fp.U128.mod64
+  rw [gen_U128_quoRem64]
+  cases Fp.U128.quoRem64 u x with
+  | error e => rfl
+  | ok a => cases a; rfl
 
 @[simp] theorem gen_U128_cmp64 : ∀ u x, Gen.Fp.U128.cmp64 u x = Fp.U128.cmp64 u x := by
   intro u x; first | rfl | simp [Gen.Fp.U128.cmp64, Fp.U128.cmp64]
 
-@[simp] theorem gen_U128_quoRem : ∀ u v, Gen.Fp.U128.quoRem u v = Fp.U128.quoRem u v := by
-  intro u v; first | rfl | simp [Gen.Fp.U128.quoRem, Fp.U128.quoRem]
+theorem lz_le {x : Nat} (h : x ≠ 0) : Fp.bitsLeadingZeros64 x ≤ 63 := by
+  unfold Fp.bitsLeadingZeros64; simp only [h, if_false]; omega
 
-@[simp] theorem gen_U128_div : ∀ u v, Gen.Fp.U128.div u v = Fp.U128.div u v := by
-  intro u v; first | rfl | simp [Gen.Fp.U128.div, Fp.U128.div]
+theorem bitsDiv64_q_lt {hi lo y q r : Nat} (hlo : lo < Fp.W) (h : Fp.bitsDiv64 hi lo y = .ok (q, r)) : q < Fp.W := by
+  unfold Fp.bitsDiv64 at h
+  split at h
+  · cases h
+  · rename_i hc
+    have hy : hi < y := by omega
+    injection h with h; injection h with h1 h2
+    subst h1
+    apply Nat.div_lt_of_lt_mul
+    calc hi * Fp.W + lo < hi * Fp.W + Fp.W := by omega
+      _ = (hi + 1) * Fp.W := by rw [Nat.add_mul, Nat.one_mul]
+      _ ≤ y * Fp.W := Nat.mul_le_mul_right _ hy
 
-@[simp] theorem gen_U128_mod : ∀ u v, Gen.Fp.U128.mod u v = Fp.U128.mod u v := by
-  intro u v; first | rfl | simp [Gen.Fp.U128.mod, Fp.U128.mod]
+theorem gen_U128_quoRem : ∀ u v, u.WF → Gen.Fp.U128.quoRem u v = Fp.U128.quoRem u v := by
+  intro u v hu
+  unfold Gen.Fp.U128.quoRem Fp.U128.quoRem
+  simp only [gen_U128_quoRem64, gen_U128_leftShift, gen_U128_rightShift, gen_U128_mul64, gen_U128_sub, gen_U128_cmp, gen_U128_add64]
+  by_cases hv : v.w1 = 0
+  · simp only [hv, beq_self_eq_true, if_true]
+    cases Fp.U128.quoRem64 u v.w0 with
+    | error e => rfl
+    | ok a => cases a; rfl
+  · have hb : (v.w1 == 0) = false := by simp [hv]
+    simp only [hb, hv, if_false, Bool.false_eq_true]
+    have hn := subw_of_le (lz_le hv) (by decide : 63 < Fp.W)
+    simp only [hn]
+    have hwf := (Fp.U128.rightShift_spec u 1 hu).1
+    cases hd : Fp.bitsDiv64 (u.rightShift 1).w1 (u.rightShift 1).w0 (v.leftShift (Fp.bitsLeadingZeros64 v.w1)).w1 with
+    | error e => rfl
+    | ok a =>
+      obtain ⟨tq, r0⟩ := a
+      have hq : tq < Fp.W := bitsDiv64_q_lt hwf.2 hd
+      simp only [bind, Except.bind]
+      have hle : Fp.shr64 tq (63 - Fp.bitsLeadingZeros64 v.w1) ≤ tq := Nat.div_le_self _ _
+      generalize Fp.shr64 tq (63 - Fp.bitsLeadingZeros64 v.w1) = t at hle ⊢
+      by_cases ht : t = 0
+      · subst ht
+        simp only [bne_self_eq_false, Bool.false_eq_true, if_false]
+        simp only [decide_eq_true_eq]
+        generalize Fp.U128.mul64 v _ = m
+        cases m with
+        | error e => rfl
+        | ok m =>
+          simp only []
+          generalize Fp.U128.sub u m = r
+          cases r with
+          | error e => rfl
+          | ok r =>
+            simp only []
+            by_cases hc : r.cmp v ≥ 0
+            · simp only [hc, if_true]
+              generalize Fp.U128.add64 _ 1 = q
+              cases q with
+              | error e => rfl
+              | ok q =>
+                simp only []
+                generalize Fp.U128.sub r v = r'
+                cases r' with
+                | error e => rfl
+                | ok r' => rfl
+            · simp only [hc, if_false]; rfl
+      · have hne : (t != 0) = true := by simp [ht]
+        have hs : Gen.Fp.subw t 1 = t - 1 := subw_of_le (by omega) (by omega)
+        simp only [hne, if_true, hs]
+        simp only [decide_eq_true_eq]
+        generalize Fp.U128.mul64 v _ = m
+        cases m with
+        | error e => rfl
+        | ok m =>
+          simp only []
+          generalize Fp.U128.sub u m = r
+          cases r with
+          | error e => rfl
+          | ok r =>
+            simp only []
+            by_cases hc : r.cmp v ≥ 0
+            · simp only [hc, if_true]
+              generalize Fp.U128.add64 _ 1 = q
+              cases q with
+              | error e => rfl
+              | ok q =>
+                simp only []
+                generalize Fp.U128.sub r v = r'
+                cases r' with
+                | error e => rfl
+                | ok r' => rfl
+            · simp only [hc, if_false]; rfl
+
+theorem gen_U128_div : ∀ u v, u.WF → Gen.Fp.U128.div u v = Fp.U128.div u v := by
+  intro u v hu
+  unfold Gen.Fp.U128.div Fp.U128.div
+  rw [gen_U128_quoRem u v hu]
+  cases Fp.U128.quoRem u v with
+  | error e => rfl
+  | ok a => cases a; rfl
+
+theorem gen_U128_mod : ∀ u v, u.WF → Gen.Fp.U128.mod u v = Fp.U128.mod u v := by
+  intro u v hu
+  unfold Gen.Fp.U128.mod Fp.U128.mod
+  rw [gen_U128_quoRem u v hu]
+  cases Fp.U128.quoRem u v with
+  | error e => rfl
+  | ok a => cases a; rfl
+
+
 
 @[simp] theorem gen_U256_zero : ∀ u, Gen.Fp.U256.zero u = Fp.U256.zero u := by
   intro u; first | rfl | simp [Gen.Fp.U256.zero, Fp.U256.zero]
@@ -190,7 +354,10 @@ open ObiVerif
   intro u; first | rfl | simp [Gen.Fp.U256.maxValue, Fp.U256.maxValue]
 
 @[simp] theorem gen_U256_isZero : ∀ u, Gen.Fp.U256.isZero u = Fp.U256.isZero u := by
-  intro u; first | rfl | simp [Gen.Fp.U256.isZero, Fp.U256.isZero]
+  intro u
+  obtain ⟨a, b, c, d⟩ := u
+  rw [Bool.eq_iff_iff]
+  simp [Gen.Fp.U256.isZero, Fp.U256.isZero, and_assoc]
 
 @[simp] theorem gen_U256_toU64 : ∀ u, Gen.Fp.U256.toU64 u = Fp.U256.toU64 u := by
   intro u; first | rfl | simp [Gen.Fp.U256.toU64, Fp.U256.toU64]
@@ -243,5 +410,108 @@ open ObiVerif
 @[simp] theorem gen_U256_xor : ∀ u v, Gen.Fp.U256.xor u v = Fp.U256.xor u v := by
   intro u v; first | rfl | simp [Gen.Fp.U256.xor, Fp.U256.xor]
 
+
+/-! ## unint.go: the generic constructors at the three widths -/
+
+theorem gen_zeroUint : Gen.Fp.zeroUint64 = Fp.zeroUint64 ∧ Gen.Fp.zeroUint128 = Fp.zeroUint128 ∧
+    Gen.Fp.zeroUint256 = Fp.zeroUint256 := ⟨rfl, rfl, rfl⟩
+theorem gen_oneUint : Gen.Fp.oneUint64 = Fp.oneUint64 ∧ Gen.Fp.oneUint128 = Fp.oneUint128 ∧
+    Gen.Fp.oneUint256 = Fp.oneUint256 := ⟨rfl, rfl, rfl⟩
+theorem gen_from64 : ∀ x, Gen.Fp.from64_64 x = Fp.from64_64 x ∧ Gen.Fp.from64_128 x = Fp.from64_128 x ∧
+    Gen.Fp.from64_256 x = Fp.from64_256 x := fun _ => ⟨rfl, rfl, rfl⟩
+
+/-! ## log.Warnf counts -/
+
+@[simp] theorem gen_U64_leftShift64_warns : ∀ u n c, Gen.Fp.U64.leftShift64_warns u n c = Fp.leftShift64Warns n := by
+  intro u n c
+  unfold Gen.Fp.U64.leftShift64_warns Fp.leftShift64Warns
+  by_cases h3 : n < 128
+  · by_cases h0 : n = 0
+    · simp [h0]
+    by_cases h1 : n < 64
+    · simp [h0, h1, h3]
+    by_cases h2 : n = 64
+    · simp [h2]
+    simp [h0, h1, h2, h3]
+  · have h0 : ¬ n = 0 := by omega
+    have h1 : ¬ n < 64 := by omega
+    have h2 : ¬ n = 64 := by omega
+    simp [h0, h1, h2, h3]
+
+@[simp] theorem gen_U64_rightShift64_warns : ∀ u n c, Gen.Fp.U64.rightShift64_warns u n c = Fp.rightShift64Warns n := by
+  intro u n c
+  unfold Gen.Fp.U64.rightShift64_warns Fp.rightShift64Warns
+  by_cases h3 : n < 128
+  · by_cases h0 : n = 0
+    · simp [h0]
+    by_cases h1 : n < 64
+    · simp [h0, h1, h3]
+    by_cases h2 : n = 64
+    · simp [h2]
+    simp [h0, h1, h2, h3]
+  · have h0 : ¬ n = 0 := by omega
+    have h1 : ¬ n < 64 := by omega
+    have h2 : ¬ n = 64 := by omega
+    simp [h0, h1, h2, h3]
+
+theorem gen_U64_leftShift_warns : ∀ u n, Gen.Fp.U64.leftShift_warns u n = Fp.U64.leftShiftWarns u n := by
+  intro u n; simp [Gen.Fp.U64.leftShift_warns, Fp.U64.leftShiftWarns]
+theorem gen_U64_rightShift_warns : ∀ u n, Gen.Fp.U64.rightShift_warns u n = Fp.U64.rightShiftWarns u n := by
+  intro u n; simp [Gen.Fp.U64.rightShift_warns, Fp.U64.rightShiftWarns]
+theorem gen_U128_leftShift_warns : ∀ u n, Gen.Fp.U128.leftShift_warns u n = Fp.U128.leftShiftWarns u n := by
+  intro u n; simp [Gen.Fp.U128.leftShift_warns, Fp.U128.leftShiftWarns]
+theorem gen_U128_rightShift_warns : ∀ u n, Gen.Fp.U128.rightShift_warns u n = Fp.U128.rightShiftWarns u n := by
+  intro u n; simp [Gen.Fp.U128.rightShift_warns, Fp.U128.rightShiftWarns]
+theorem gen_U128_toU64_warns : ∀ u, Gen.Fp.U128.toU64_warns u = Fp.U128.toU64Warns u := by
+  intro u; simp [Gen.Fp.U128.toU64_warns, Fp.U128.toU64Warns]
+theorem gen_U256_toU64_warns : ∀ u, Gen.Fp.U256.toU64_warns u = Fp.U256.toU64Warns u := by
+  intro u; simp [Gen.Fp.U256.toU64_warns, Fp.U256.toU64Warns]
+theorem gen_U256_toU128_warns : ∀ u, Gen.Fp.U256.toU128_warns u = Fp.U256.toU128Warns u := by
+  intro u; simp [Gen.Fp.U256.toU128_warns, Fp.U256.toU128Warns]
+
+/-! ## The index of what the translator did: a method added to / removed from pkg/obifp, a method that stops being
+straight-line (or starts being so), a new `log.Warnf` / `log.Panicf` site changes one of these lists and breaks the
+corresponding `rfl`. -/
+
+/-- exactly these four methods (the ones with a `for`) are NOT regenerated and stay hand transcribed in Model/Fp.lean -/
+theorem gen_untranslated : Gen.Fp.untranslated =
+    ["Uint256.LeftShift: for statement", "Uint256.RightShift: for statement", "Uint256.Mul: for statement",
+     "Uint256.Div: for statement"] := rfl
+
+theorem gen_translated : Gen.Fp.translated =
+    ["Uint64.Zero", "Uint64.MaxValue", "Uint64.IsZero", "Uint64.Uint64", "Uint64.Uint128", "Uint64.Uint256", "Uint64.Set64",
+     "Uint64.LeftShift64", "Uint64.RightShift64", "Uint64.Add64", "Uint64.Sub64", "Uint64.Mul64", "Uint64.LeftShift",
+     "Uint64.RightShift", "Uint64.Add", "Uint64.Sub", "Uint64.Mul", "Uint64.Cmp", "Uint64.Equals", "Uint64.LessThan",
+     "Uint64.GreaterThan", "Uint64.LessThanOrEqual", "Uint64.GreaterThanOrEqual", "Uint64.And", "Uint64.Or", "Uint64.Xor",
+     "Uint64.Not", "Uint64.AsUint64",
+     "Uint128.Zero", "Uint128.MaxValue", "Uint128.IsZero", "Uint128.Uint64", "Uint128.Uint128", "Uint128.Uint256",
+     "Uint128.Set64", "Uint128.LeftShift", "Uint128.RightShift", "Uint128.Add", "Uint128.Add64", "Uint128.Sub", "Uint128.Mul",
+     "Uint128.Mul64", "Uint128.QuoRem", "Uint128.QuoRem64", "Uint128.Div", "Uint128.Div64", "Uint128.Mod", "Uint128.Mod64",
+     "Uint128.Cmp", "Uint128.Cmp64", "Uint128.Equals", "Uint128.LessThan", "Uint128.GreaterThan", "Uint128.LessThanOrEqual",
+     "Uint128.GreaterThanOrEqual", "Uint128.And", "Uint128.Or", "Uint128.Xor", "Uint128.Not", "Uint128.AsUint64",
+     "Uint256.Zero", "Uint256.MaxValue", "Uint256.IsZero", "Uint256.Uint64", "Uint256.Uint128", "Uint256.Uint256",
+     "Uint256.Set64", "Uint256.Cmp", "Uint256.Add", "Uint256.Sub", "Uint256.Equals", "Uint256.LessThan",
+     "Uint256.GreaterThan", "Uint256.LessThanOrEqual", "Uint256.GreaterThanOrEqual", "Uint256.And", "Uint256.Or",
+     "Uint256.Xor", "Uint256.Not", "Uint256.AsUint64",
+     "ZeroUint[Uint64]", "ZeroUint[Uint128]", "ZeroUint[Uint256]", "OneUint[Uint64]", "OneUint[Uint128]", "OneUint[Uint256]",
+     "From64[Uint64]", "From64[Uint128]", "From64[Uint256]"] := rfl
+
+/-- the methods with a regenerated warning count (the other members of `mayWarn` are the four loop methods and the
+QuoRem family, which may also panic: their count is hand written / tied by the harness) -/
+theorem gen_withWarnCount : Gen.Fp.withWarnCount =
+    ["Uint64.LeftShift64", "Uint64.RightShift64", "Uint64.LeftShift", "Uint64.RightShift", "Uint128.Uint64",
+     "Uint128.LeftShift", "Uint128.RightShift", "Uint256.Uint64", "Uint256.Uint128"] := rfl
+
+/-- syntactic closure (by method name) of the `log.Warnf` sites: no other function of the package can log a warning -/
+theorem gen_mayWarn : Gen.Fp.mayWarn =
+    ["Uint128.Div", "Uint128.LeftShift", "Uint128.Mod", "Uint128.QuoRem", "Uint128.RightShift", "Uint128.Uint64",
+     "Uint256.Div", "Uint256.LeftShift", "Uint256.RightShift", "Uint256.Uint128", "Uint256.Uint64", "Uint64.LeftShift",
+     "Uint64.LeftShift64", "Uint64.RightShift", "Uint64.RightShift64"] := rfl
+
+/-- syntactic closure of the `log.Panicf` / `bits.Div64` sites: exactly the functions whose model returns `Except` -/
+theorem gen_mayPanic : Gen.Fp.mayPanic =
+    ["Uint128.Add", "Uint128.Add64", "Uint128.Div", "Uint128.Div64", "Uint128.Mod", "Uint128.Mod64", "Uint128.Mul",
+     "Uint128.Mul64", "Uint128.QuoRem", "Uint128.QuoRem64", "Uint128.Sub", "Uint256.Add", "Uint256.Div", "Uint256.Mul",
+     "Uint256.Sub", "Uint64.Add", "Uint64.Mul", "Uint64.Sub"] := rfl
 
 end ObiVerif.Props.C20Gen
